@@ -46,6 +46,13 @@ ViolatingCells == {<<i, p, m>> \in Inst \X Payloads \X Markers : ~CellHolds(i, p
 (* what the property demands of any rule set: a conversion may exist only ... *)
 PropertyRulesOk == \A i \in Inst, p \in Payloads, m \in Markers : CellHolds(i, p, m)
 
+(* The conversion rules the library ships (every `impl Opaquable for X` in cglue/src, self type with lifetimes removed).   *)
+(* The matrix above speaks for these; the check takes a census of the real impls and an impl that is NOT in this set is a  *)
+(* new way into the opaque world - it is probed with the four payload classes on the spot (the property's own predicate:   *)
+(* convertible, opaque form has the marker, typed form has not).                                                           *)
+KnownRules == {"Fwd<T>", "CBox<T>", "CSliceBox<T>", "CGlueObjContainer<T,C,R>", "&T", "&mutT", "CGlueTraitObj<T,F,C,R>",
+               "std::marker::PhantomData<T>", "()", "c_void", "CArc<T>", "CArcSome<T>"}
+
 Cells == {[w |-> k[1], i |-> k[2], p |-> p,
            base |-> [Send |-> BaseHas(k[2], p, "Send"), Sync |-> BaseHas(k[2], p, "Sync")],
            conv |-> Convertible(k[2], p),
@@ -56,5 +63,5 @@ VARIABLE done
 Init == done = FALSE
 Next == ~done /\ done' = TRUE
 Spec == Init /\ [][Next]_done
-Emit == done => PrintT(<<"REPLAY", ToJson([cells |-> Cells, violating |-> ViolatingCells])>>)
+Emit == done => PrintT(<<"REPLAY", ToJson([cells |-> Cells, violating |-> ViolatingCells, rules |-> KnownRules])>>)
 =============================================================================
